@@ -28,14 +28,14 @@ MethodAst(ty, oc, name, args, range, orange, b) ==
 
 \* ---- malformations of the statement (each applicable to some kinds)
 Malformations ==
-  {"none", "noarrow", "unspaced", "nocolon", "indent0", "indent2", "indent3", "indenttab",
+  {"none", "noarrow", "unspaced", "nocolon", "indent0", "indent2", "indent3", "indent5", "indent8", "indenttab",
    "startonly", "noret"}
 
 Applicable(ast, mal) ==
   CASE mal = "none" -> TRUE
     [] mal \in {"noarrow", "unspaced"} -> ast.k \in {"class", "field", "method"}
     [] mal = "nocolon" -> ast.k = "class"
-    [] mal \in {"indent0", "indent2", "indent3", "indenttab"} -> ast.k \in {"field", "method"}
+    [] mal \in {"indent0", "indent2", "indent3", "indent5", "indent8", "indenttab"} -> ast.k \in {"field", "method"}
     [] mal = "startonly" -> ast.k = "method" /\ ast.range # <<>>
     [] mal = "noret" -> ast.k \in {"field", "method"}
     [] OTHER -> FALSE
@@ -49,6 +49,8 @@ IndentOf(mal) ==
   CASE mal = "indent0" -> <<>>
     [] mal = "indent2" -> B("  ")
     [] mal = "indent3" -> B("   ")
+    [] mal = "indent5" -> B("     ")
+    [] mal = "indent8" -> B("        ")
     [] mal = "indenttab" -> <<9>>
     [] OTHER -> B("    ")
 
